@@ -12,10 +12,12 @@ import (
 var Corpus = [][]string{
 	// C18 regression (fixed): remainder shorter than the read buffer + a queued chunk.
 	{"W8", "W3", "R3:a:0", "R3:a:0", "R3:a:0", "R3:a:0", "C", "R3:a:0", "R3:a:0"},
+	// an interrupt pending while a remainder is buffered: the remainder must survive
+	{"W8", "R3:a:0", "R3:a:1", "R1:a:1", "R5:a:0", "C", "R3:a:0"},
 }
 
 func alphabet(tier string) []string {
-	a := []string{"W1", "W2", "W3", "C", "R2:a:1"}
+	a := []string{"W1", "W2", "W3", "C", "R2:a:1", "R1:a:1"}
 	for _, m := range []int{1, 2, 3, 5} {
 		a = append(a, fmt.Sprintf("R%d:n:0", m), fmt.Sprintf("R%d:a:0", m))
 	}
